@@ -696,13 +696,27 @@ class Typer:
         return None
 
     # -------------------------------------------------------------- narrowing
-    def _isinstance_facts(self, test: ast.AST, name: str, m: ModuleInfo, positive: bool = True):
+    def _isinstance_facts(self, test: ast.AST, name: str, m: ModuleInfo, positive: bool = True, fn_node: Optional[ast.AST] = None):
         """class names C such that `test` being true (positive) implies
         isinstance(name, C) / type(name) is C"""
         out = []
+        if isinstance(test, ast.UnaryOp) and isinstance(test.op, ast.Not):
+            return self._isinstance_facts(test.operand, name, m, not positive, fn_node)
         if isinstance(test, ast.BoolOp) and isinstance(test.op, ast.And) and positive:
             for v in test.values:
-                out += self._isinstance_facts(v, name, m)
+                out += self._isinstance_facts(v, name, m, True, fn_node)
+            return out
+        if isinstance(test, ast.BoolOp) and isinstance(test.op, ast.Or) and not positive:
+            for v in test.values:
+                out += self._isinstance_facts(v, name, m, False, fn_node)
+            return out
+        if isinstance(test, ast.Name) and fn_node is not None and positive:
+            # a boolean local bound once to a test (`is_region = isinstance(b, RegionBlock)`)
+            defs = [s_ for s_ in ast.walk(fn_node) if isinstance(s_, ast.Assign) and len(s_.targets) == 1 and isinstance(s_.targets[0], ast.Name) and s_.targets[0].id == test.id]
+            stores = [x for x in ast.walk(fn_node) if isinstance(x, ast.Name) and x.id == test.id and isinstance(x.ctx, ast.Store)]
+            rebinds = [x for x in ast.walk(fn_node) if isinstance(x, ast.Name) and x.id == name and isinstance(x.ctx, ast.Store)]
+            if len(defs) == 1 and len(stores) == 1 and len(rebinds) <= 0 and not isinstance(defs[0].value, ast.Name):
+                return self._isinstance_facts(defs[0].value, name, m, True, None)
             return out
         if isinstance(test, ast.Call) and isinstance(test.func, ast.Name) and test.func.id == "isinstance" and len(test.args) == 2:
             if isinstance(test.args[0], ast.Name) and test.args[0].id == name and positive:
@@ -730,7 +744,9 @@ class Typer:
                 facts += self._preceding_asserts(body, child, e.id, m)
                 break
             if isinstance(anc, (ast.If, ast.While)) and child in anc.body:
-                facts += self._isinstance_facts(anc.test, e.id, m)
+                facts += self._isinstance_facts(anc.test, e.id, m, True, fn.node)
+            if isinstance(anc, ast.If) and child in anc.orelse:
+                facts += self._isinstance_facts(anc.test, e.id, m, False, fn.node)
             if isinstance(anc, ast.IfExp) and child is anc.body:
                 facts += self._isinstance_facts(anc.test, e.id, m)
             if isinstance(anc, ast.BoolOp) and isinstance(anc.op, ast.And) and child in anc.values:
@@ -761,6 +777,9 @@ class Typer:
         for st in seq[: seq.index(child)]:
             if isinstance(st, ast.Assert):
                 out += self._isinstance_facts(st.test, name, m)
+            elif isinstance(st, ast.If) and not st.orelse and A.always_leaves(st.body):
+                # guard clause: `if not isinstance(x, C): raise ..` narrows what follows
+                out += self._isinstance_facts(st.test, name, m, False)
             elif isinstance(st, (ast.Assign, ast.AugAssign, ast.AnnAssign, ast.For)):
                 # a rebinding of the name invalidates earlier facts
                 tg = []
